@@ -6,7 +6,7 @@ import (
 
 func accepts(t *testing.T, src, out string) bool {
 	t.Helper()
-	m, err := newModel([]byte(src), map[string][]byte{"p.txt": []byte("PART")})
+	m, err := newModel([]byte(src), map[string][]byte{"p.txt": []byte("PART")}, false)
 	if err != nil {
 		t.Fatalf("%q: %v", src, err)
 	}
@@ -69,8 +69,8 @@ func TestModel(t *testing.T) {
 func TestGeneratorWellFormed(t *testing.T) {
 	unsupported := 0
 	for i := 0; i < 3000; i++ {
-		_, src, partials := generate(99, i)
-		m, err := newModel(src, partials)
+		ext, src, partials := generate(99, i)
+		m, err := newModel(src, partials, ext == ".html")
 		if err != nil {
 			t.Fatalf("generated source rejected by the reference tokenizer: %v\n%q", err, src)
 		}
